@@ -18,7 +18,7 @@ EXPLANATION = (
     "Display for public keys prints expose_key(); KeyText stores bytes verbatim. Does not decide the libraries' validators themselves, "
     "equality of behaviour of a re-parsed key, or DER canonicality for v1.")
 ASSUMPTIONS = ["rustc type checking / MIR construction are correct", "library validators validate what they document", "library parse/serialise pairs in keyrules are inverse on inputs of the stated width"]
-FLOORS = {"R08.1": 30, "R08.1b": 26, "R08.2": 24, "R08.3": 4, "R08.5": 6, "R08.6": 4, "R08.7": 12}
+FLOORS = {"R08.1": 30, "R08.1b": 26, "R08.2": 24, "R08.3": 4, "R08.5": 6, "R08.6": 4, "R08.7": 12, "R08.8": 4}
 
 KINDS = c10.KINDS
 VALIDATORS = {   # a call that must be on the path with its success edge taken
@@ -44,7 +44,7 @@ def _shape(t):
     if t[0] == "call":
         last = re.sub(r"<.*>", "", t[1].rsplit("::", 1)[-1])
         args = tuple(_shape(a) for a in t[2])
-        if last.startswith(("from_", "try_from", "parse")) and all(a in ("IN", "PARSED") or (isinstance(a, tuple) and a and a[0] in ("sl",)) for a in args):
+        if last.startswith(("from_", "try_from", "parse")) and ("IN" in repr(args) or "PARSED" in repr(args)):
             return "PARSED"
         return ("call", last, args)
     return tuple(_shape(x) for x in t)
@@ -82,7 +82,42 @@ def run_strictness(ctx):
                     f"the {pub} decoder rejects on condition(s) the {sec} decoder does not apply, so a secret key can be accepted whose derived public key does not parse back: {extra}" if extra else "",
                     site_of(fp), {"public_only": extra, "shared": len(sp) - len(extra)})
 
+def run_v1_parse_input(ctx):
+    """R08.8 (v1, whose keys are DER/PEM documents): the DER parser is given the supplied bytes unmodified and the PEM fallback
+    the supplied bytes as UTF-8, unmodified — no trimming or slicing in front of the parser, so decode(encode(key)) parses
+    exactly what encode produced (wrapped keys come back as raw DER that may end in any byte)."""
+    w = ctx.world
+    cn = BACKENDS["v1"]
+    for kind in ("Public", "Secret", "PkePublic", "PkeSecret"):
+        f = find_impl_fn(w, cn, "::HasKey", "decode", kind)
+        if f is None:
+            ctx.add("R08.8", f"C08/v1-parser-input/{kind}", False, "anchor missing")
+            continue
+        run_ = Run(w, f)
+        probs = []
+        ders = pems = 0
+        for r in run_.results:
+            for e in r.path.events:
+                if e["kind"] != "call":
+                    continue
+                last = e["name"].rsplit("::", 1)[-1]
+                if last in ("from_public_key_der", "from_pkcs1_der"):
+                    ders += 1
+                    a = run_.norm.n(e["vals"][0])
+                    if a != ("in", "bytes"):
+                        probs.append(f"{last} is given {fmt_n(a)[:120]} instead of the supplied bytes")
+                if last in ("from_public_key_pem", "from_pkcs1_pem"):
+                    pems += 1
+                    a = run_.norm.n(e["vals"][0])
+                    ok = isinstance(a, tuple) and a and a[0] == "ok" and isinstance(a[1], tuple) and a[1][0] == "call" and a[1][1].endswith("from_utf8") and a[1][2] == (("in", "bytes"),)
+                    if not ok:
+                        probs.append(f"{last} is given {fmt_n(a)[:120]} instead of from_utf8(supplied bytes)")
+        if not ders:
+            probs.append("no DER parse attempt found")
+        ctx.add("R08.8", f"C08/v1-parser-input/{kind}", not probs, "; ".join(sorted(set(probs))), site_of(f))
+
 def run(ctx):
+    run_v1_parse_input(ctx)
     run_strictness(ctx)
     w = ctx.world
     for be, cn in BACKENDS.items():
